@@ -23,8 +23,8 @@ def run(rng, tier, res=None):
             res.violations.append({"property": "C20", "what": m, "replay": meta})
 
     for case in range(ncases):
-        K = rng.choice([1, 2, 2, 3, 3, 4, 5, 6])
-        n = rng.randint(max(1, K), 30)
+        K = rng.choice([1, 2, 2, 3, 3, 4, 5, 6, 6, 17, 26, 40])
+        n = rng.randint(max(1, K), max(30, 2 * K))
         labels = [rng.randrange(K) for _ in range(n)]
         all_present = rng.random() < 0.8
         if all_present:
@@ -48,7 +48,12 @@ def run(rng, tier, res=None):
             preds = [rng.randrange(K) for _ in range(n)]
         present = sorted(set(labels)) == list(range(K))
         meta = {"labels": labels, "preds": preds}
-        La, Pa = np.array(labels), np.array(preds)
+        dt = rng.choice([np.int64, np.int64, np.int32, np.int16, np.uint8, "list"])
+        if dt == "list":
+            La, Pa = list(labels), list(preds)
+        else:
+            La, Pa = np.array(labels, dtype=dt), np.array(preds, dtype=dt)
+        res.hit("dtype_" + (dt if isinstance(dt, str) else np.dtype(dt).name))
         if max(preds) >= K:
             # predictions beyond the label range: only opf_accuracy is defined there (no crash, same formula)
             acc = G.opf_accuracy(La, Pa)
@@ -56,22 +61,28 @@ def run(rng, tier, res=None):
             lines.append(line); obs.append(("TOL", [float(acc)])); metas.append(meta)   # n_class may reach 8: numpy sums pairwise there
             res.add_case(line, nontrivial=True); res.hit("preds_out_of_range")
             continue
-        cm = G.confusion_matrix(La, Pa)
-        acc = G.opf_accuracy(La, Pa)
-        pur = G.purity(La, Pa)
-        if present:
-            per = list(G.opf_accuracy_per_label(La, Pa))
-        else:
-            per = None
+        try:
+            cm = G.confusion_matrix(La, Pa)
+            acc = G.opf_accuracy(La, Pa)
+            pur = G.purity(La, Pa)
+            if present:
+                per = list(G.opf_accuracy_per_label(La, Pa))
+            else:
+                per = None
+        except Exception as ex:
+            viol(f"evaluation measure raised {type(ex).__name__}: {ex} on in-range labels/predictions", meta)
+            continue
         line = f"acc {n} {ints(labels)} {ints(preds)}"
         cms = " , ".join(" ".join(str(int(v)) for v in row) for row in cm)
         if per is not None:
             ob = f"{cms} | {fb(acc)} | {ints(fb(v) for v in per)} | {fb(pur)}"
+            if K >= 8:
+                ob = ("TOLACC", cms, float(acc), [float(v) for v in per], float(pur))   # numpy sums >= 8 terms pairwise
             lines.append(line); obs.append(ob); metas.append(meta)
             res.add_case(line, nontrivial=(K >= 2 and n >= 3))
         res.hit("K%d" % K); res.hit("mode_" + mode); res.hit("all_classes_present" if present else "class_missing")
         if case < 2 and per is not None:
-            res.samples.append({"input": line, "impl": ob})
+            res.samples.append({"input": line, "impl": str(ob)})
         # ---- oracle (exact rationals) ----
         if present:
             N = n
@@ -132,7 +143,17 @@ def run(rng, tier, res=None):
     # compare (normalize with tolerance: numpy's mean/std use pairwise summation)
     model = run_driver(lines)
     for k, (l, a, b) in enumerate(zip(lines, obs, model)):
-        if isinstance(a, tuple):
+        if isinstance(a, tuple) and a[0] == "TOLACC":
+            sb = b.split(" | ")
+            def dec(t):
+                return struct.unpack("<d", struct.pack("<Q", int(t)))[0]
+            okk = (sb[0] == a[1] and abs(dec(sb[1]) - a[2]) <= 1e-12 and
+                   len(sb[2].split()) == len(a[3]) and all(abs(dec(t) - v) <= 1e-12 for t, v in zip(sb[2].split(), a[3])) and
+                   abs(dec(sb[3]) - a[4]) <= 1e-12)
+            if not okk:
+                res.disagreements.append({"stream": "measures", "case": k, "kind": "acc", "segments": [0, 1, 2, 3], "input": l,
+                                          "impl": str(a)[:300], "model": b[:300], "meta": metas[k]})
+        elif isinstance(a, tuple):
             vals = [struct.unpack("<d", struct.pack("<Q", int(t)))[0] for t in b.split()]
             if len(vals) != len(a[1]) or any(abs(x - y) > 1e-9 * max(1, abs(x)) for x, y in zip(a[1], vals)):
                 res.disagreements.append({"stream": "measures", "case": k, "kind": "norm", "segments": [0], "input": l,
